@@ -602,7 +602,6 @@ func c08Concurrent(run *hx.Run, dir string, idx int) {
 	}
 }
 
-
 // c08TransientFault: the first access of a new read transaction fails (one-shot
 // read fault on the header read); later accesses in the SAME transaction must
 // still reflect the latest commit (or fail), never the state remembered from
